@@ -31,6 +31,12 @@ NEED_NOT_CLEAR = {
     'beartype._util.hint.pep.proposal.pep749.pep649749annotate._MODULE_NAME_TO_HINTABLE_BASENAME_TO_ANNOTATIONS':
         'listed in the clear_caches docstring',
 }
+# the function that writes each exempt table (second way of recognising it)
+NEED_NOT_CLEAR_WRITERS = {
+    'beartype._decor.decorcache._bear_conf_to_decor': 'beartype',
+    'beartype._conf.confmain._beartype_conf_args_to_conf': 'BeartypeConf.__new__',
+    'beartype._decor._type.decortype._BEARTYPED_MODULE_TO_TYPE_NAME': '_uncache_beartype_if_type_redefined',
+}
 IMPURE = {
     'sys.modules': 'the module table', 'sys._getframe': 'live frames', 'inspect.currentframe': 'live frames',
     'os.environ': 'the process environment', 'os.getenv': 'the process environment', 'importlib.import_module': 'imports',
@@ -119,9 +125,24 @@ def run(ctx):
             for c2 in ast.walk(of):
                 if isinstance(c2, ast.Call) and isinstance(c2.func, ast.Attribute) and c2.func.attr == 'clear' and isinstance(c2.func.value, ast.Name):
                     cleared.add(f'{om.name}.{c2.func.value.id}')
+    # `for cache in (T1, T2, …): cache.clear()`
+    for lp in [x for x in walk_shallow(cf) if isinstance(x, ast.For) and isinstance(x.target, ast.Name)
+               and isinstance(x.iter, (ast.Tuple, ast.List))]:
+        if any(isinstance(c, ast.Call) and isinstance(c.func, ast.Attribute) and c.func.attr == 'clear'
+               and dotted(c.func.value) == lp.target.id for st_ in lp.body for c in ast.walk(st_)):
+            for e in lp.iter.elts:
+                if isinstance(e, ast.Name):
+                    r = repo.resolve_name(cm, lp, e.id)
+                    cleared.add(f'{r.module}.{r.name}')
+    # the exemption table is matched by table name or, if the table was renamed, by the function(s) writing it —
+    # moving a table to another module or renaming it must not turn an exempt table into a finding
+    exempt_names = {k.rsplit('.', 1)[1]: k for k in NEED_NOT_CLEAR}
+    exempt_writers = {w: k for k, w in NEED_NOT_CLEAR_WRITERS.items()}
     for q in sorted(runtime):
         m, st = tables[q]
-        ok = q in cleared or q in NEED_NOT_CLEAR
+        wq = sorted({qualname_of(fn) for _, fn, _ in runtime[q]})
+        ok = q in cleared or q in NEED_NOT_CLEAR or q.rsplit('.', 1)[1] in exempt_names \
+            or (len(wq) == 1 and wq[0] in exempt_writers)
         ctx.ob('C14.R4', f'table:{q}', m.where(st), 'a run-time memo table is cleared by clear_caches() or reasoned exempt',
                ok, f'written by {sorted({qualname_of(fn) for _, fn, _ in runtime[q]})}; not cleared, not in the exemption table')
     ctx.floor('C14.R4', len(runtime), 9, 'run-time tables written from functions')
@@ -566,6 +587,11 @@ KEY_EXEMPT_PARAMS = {
 }
 
 
+def _is_local_name(fn, name):
+    return any(isinstance(a, ast.Assign) and any(isinstance(t, ast.Name) and t.id == name for t in a.targets) for a in walk_shallow(fn)) \
+        or name in params_of(fn)
+
+
 def _key_completeness(ctx, RULE='C14.R1', only_check_expr=False):
     ctx.rule(RULE, 'key completeness of the explicit memo tables: the key tuple contains every parameter of the '
              'memoised computation, except parameters that only influence the result through a callee whose '
@@ -575,8 +601,15 @@ def _key_completeness(ctx, RULE='C14.R1', only_check_expr=False):
     m = repo.mod('beartype._check.code.codemain')
     fn = m.defs.get('make_check_expr')
     ctx.require(fn is not None, 'anchor vanished: make_check_expr')
-    keys = [a for a in walk_shallow(fn) if isinstance(a, ast.Assign) and dotted(a.targets[0]) == 'CACHE_KEY']
-    ctx.require(len(keys) == 1 and isinstance(keys[0].value, ast.Tuple), 'make_check_expr: CACHE_KEY is not one tuple')
+    # the memo table of make_check_expr is the module-level dictionary it stores into; the key is whatever
+    # subscripts that store (found by role, not by the names CACHE_KEY / _HINT_CONF_TO_CHECK_EXPR)
+    mod_dicts = {nm for nm, sts in m.assigns.items() if any(isinstance(getattr(s_, 'value', None), (ast.Dict, ast.Call)) for s_ in sts)}
+    tstores = [a for a in walk_shallow(fn) if isinstance(a, ast.Assign) and isinstance(a.targets[0], ast.Subscript)
+               and isinstance(a.targets[0].value, ast.Name) and a.targets[0].value.id in mod_dicts and not _is_local_name(fn, a.targets[0].value.id)]
+    ctx.require(len({norm(a.targets[0].value) for a in tstores}) == 1, 'make_check_expr: expected stores into exactly one module-level memo table')
+    TABLE1, KEY1 = norm(tstores[0].targets[0].value), dotted(tstores[0].targets[0].slice)
+    keys = [a for a in walk_shallow(fn) if isinstance(a, ast.Assign) and dotted(a.targets[0]) == KEY1]
+    ctx.require(len(keys) == 1 and isinstance(keys[0].value, ast.Tuple), f'make_check_expr: the memo key {KEY1} is not one tuple')
     in_key = {dotted(e) for e in keys[0].value.elts}
     for p in params_of(fn):
         if p in in_key:
@@ -585,7 +618,7 @@ def _key_completeness(ctx, RULE='C14.R1', only_check_expr=False):
         # allowed only for the reviewed context parameters whose influence is tracked by the cacheability flag
         if p not in KEY_EXEMPT_PARAMS:
             ctx.ob(RULE, f'make_check_expr:param:{p}', m.where(keys[0]), f'{p} is part of the memo key', False,
-                   f'{p} is not in CACHE_KEY = {norm(keys[0].value)}: a later call with another {p} is answered with the '
+                   f'{p} is not in the memo key {KEY1} = {norm(keys[0].value)}: a later call with another {p} is answered with the '
                    f'expression generated for the first one')
             continue
         hm = repo.mod('beartype._check.cls.hint.tree.hinttreecode')
@@ -596,7 +629,7 @@ def _key_completeness(ctx, RULE='C14.R1', only_check_expr=False):
         only_reinit = all(isinstance(parent(u), ast.keyword) or isinstance(parent(u), ast.Call) or
                           isinstance(parent(parent(u)), ast.Assert) or isinstance(parent(u), ast.FormattedValue) for u in uses)
         stores = [a for a in walk_shallow(fn) if isinstance(a, ast.Assign) and isinstance(a.targets[0], ast.Subscript)
-                  and dotted(a.targets[0].value) == '_HINT_CONF_TO_CHECK_EXPR']
+                  and dotted(a.targets[0].value) == TABLE1]
         guarded = bool(stores) and all(isinstance(parent(s), ast.If) and 'is_check_expr_cacheable' in norm(parent(s).test) for s in stores)
         ctx.ob(RULE, f'make_check_expr:param:{p}', m.where(keys[0]),
                f'{p} is outside the key but only reaches the result through sanify_hint_child, whose cacheability '
@@ -608,15 +641,23 @@ def _key_completeness(ctx, RULE='C14.R1', only_check_expr=False):
     m2 = repo.mod('beartype._check.checkmake')
     f2 = m2.defs.get('make_func_checker')
     ctx.require(f2 is not None, 'anchor vanished: make_func_checker')
-    keys = [a for a in walk_shallow(f2) if isinstance(a, ast.Assign) and dotted(a.targets[0]) == 'CACHE_KEY']
-    ctx.require(len(keys) == 1 and isinstance(keys[0].value, ast.Tuple), 'make_func_checker: CACHE_KEY is not one tuple')
+    # here the memo table is a parameter (each caller passes its own, C03.R5): the store through a parameter
+    ps2 = params_of(f2)
+    pstores = [a for a in walk_shallow(f2) if isinstance(a, ast.Assign) and isinstance(a.targets[0], ast.Subscript)
+               and isinstance(a.targets[0].value, ast.Name) and a.targets[0].value.id in ps2]
+    ctx.require(len({norm(a.targets[0].value) for a in pstores}) == 1, 'make_func_checker: expected stores into exactly one memo-table parameter')
+    TABLE2, KEY2 = norm(pstores[0].targets[0].value), dotted(pstores[0].targets[0].slice)
+    keys = [a for a in walk_shallow(f2) if isinstance(a, ast.Assign) and dotted(a.targets[0]) == KEY2]
+    ctx.require(len(keys) == 1 and isinstance(keys[0].value, ast.Tuple), f'make_func_checker: the memo key {KEY2} is not one tuple')
     in_key = {dotted(e) for e in keys[0].value.elts}
-    for p in params_of(f2):
-        ok = p in in_key or p in ('make_code_check', 'hint_conf_exception_prefix_to_func_checker')
+    # the code factory is the one parameter that is called; it is paired with its table by C03.R5
+    factory = {c.func.id for c in walk_shallow(f2) if isinstance(c, ast.Call) and isinstance(c.func, ast.Name) and c.func.id in ps2}
+    for p in ps2:
+        ok = p in in_key or p == TABLE2 or p in factory
         ctx.ob(RULE, f'make_func_checker:param:{p}', m2.where(keys[0]),
                f'{p} is in the key (or is the factory / its own table, paired by C03.R5)', ok, f'key = {sorted(in_key)}')
     stores = [a for a in walk_shallow(f2) if isinstance(a, ast.Assign) and isinstance(a.targets[0], ast.Subscript)
-              and dotted(a.targets[0].value) == 'hint_conf_exception_prefix_to_func_checker']
+              and dotted(a.targets[0].value) == TABLE2]
     ok = bool(stores) and all(isinstance(parent(s), ast.If) and 'is_func_cacheable' in norm(parent(s).test)
                               and 'is_check_expr_cacheable' in norm(parent(s).test) for s in stores)
     ctx.ob(RULE, 'make_func_checker:store-guarded', m2.where(f2),
@@ -632,8 +673,9 @@ def _key_completeness(ctx, RULE='C14.R1', only_check_expr=False):
     m4 = repo.mod('beartype._check.cls.hint.hintsane')
     f4 = repo.find_def(m4.name, '_HintSaneMetaclass.__call__')
     stores = [a for a in walk_shallow(f4) if isinstance(a, ast.Assign) and any(isinstance(t, ast.Subscript) and dotted(t.value) == '_HINT_TO_HINTSANE' for t in a.targets)]
-    ok = bool(stores) and all(any(isinstance(p_, ast.If) and norm(p_.test) == 'kwargs' and s in _descendants(p_.orelse)
-                                  for p_ in walk_shallow(f4) if isinstance(p_, ast.If)) for s in stores)
+    from sa.astutil import path_guards
+    kw = f4.args.kwarg.arg if f4.args.kwarg else 'kwargs'
+    ok = bool(stores) and all(f'not ({kw})' in path_guards(s_, f4) for s_ in stores)
     ctx.ob(RULE, 'HintSane:memoised-only-without-kwargs', m4.where(f4),
            'HintSane objects are memoised by hint only when no further field is passed', ok, '')
 
